@@ -2616,19 +2616,29 @@ func genGlobalVarDecl(nodes []*node, sc *scope) (*node, error) {
 }
 
 func getVarDependencies(nod *node, sc *scope) (deps []*node) {
-	nod.Walk(func(n *node) bool {
-		if n.kind != identExpr {
-			return true
-		}
+	seen := map[*node]bool{}
+	var visit func(n *node) bool
+	visit = func(n *node) bool {
 		// The identifiers are resolved by their symbol, set at CFG: a local variable,
 		// a field name or a blank identifier is never a dependency.
-		sym := n.sym
-		if sym == nil || sym.kind != varSym || !sym.global || sym.node == nod {
-			return false
+		var fn *node
+		switch {
+		case n.kind == selectorExpr && n.action == aGetMethod:
+			fn, _ = n.val.(*node)
+		case n.kind != identExpr || n.sym == nil:
+		case n.sym.kind == funcSym:
+			fn = n.sym.node
+		case n.sym.kind == varSym && n.sym.global && n.sym.node != nod:
+			deps = append(deps, n.sym.node)
 		}
-		deps = append(deps, sym.node)
-		return false
-	}, nil)
+		if fn != nil && !seen[fn] {
+			// A reference to a function or method is a reference to all what its body refers to.
+			seen[fn] = true
+			fn.Walk(visit, nil)
+		}
+		return true
+	}
+	nod.Walk(visit, nil)
 	return deps
 }
 
